@@ -77,6 +77,7 @@ fn profile(name: &str) -> Profile {
         "claims" => Profile { name: "claims", claim: 14, scope: 8, ..base },
         "prepared" => Profile { name: "prepared", prepare: 30, typed: 4, alloc: 15, ..base },
         "aligned" => Profile { name: "aligned", aligned: 20, scope: 8, dealloc: 12, ..base },
+        "entry" => Profile { name: "entry", typed: 30, alloc: 25, prepare: 8, reserve: 5, wrappers: 30, fail_pct: 0, ..base },
         "ledger" => Profile { name: "ledger", top: 8, big_pct: 25, reserve: 8, fail_pct: 40, ..base },
         _ => base,
     }
